@@ -651,6 +651,12 @@ func (c *Ctx) obligation(fr *Frame, bad *Term, kind, msg string) {
 	case "unsat":
 		c.countObl(1)
 	case "sat":
+		if !c.confirmModel(bad, model) {
+			c.countObl(3)
+			fn, site := c.site(fr)
+			c.w.noteUndischarged(kind + " (solver model not confirmed) @ " + fn + " : " + site)
+			break
+		}
 		c.countObl(2)
 		c.recordViolation(fr, kind, msg, model)
 	default:
@@ -688,7 +694,30 @@ func (c *Ctx) violation(kind string, fr *Frame, msg string) {
 		}
 		return
 	}
+	if !c.confirmModel(c.tb.Bool(true), model) {
+		fn, site := c.site(fr)
+		c.w.noteUndischarged(kind + " (solver model not confirmed) @ " + fn + " : " + site)
+		return
+	}
 	c.recordViolation(fr, kind, msg, model)
+}
+
+// confirmModel re-asks the solver whether path condition ∧ bad holds under the input values of a
+// reported model. A model that the solver itself refutes (lost context, mis-parsed values) must not
+// become a violation.
+func (c *Ctx) confirmModel(bad *Term, model map[*Term]uint64) bool {
+	q := bad
+	for _, in := range c.inputs {
+		if in.T.isC {
+			continue
+		}
+		v, ok := model[in.T]
+		if !ok {
+			continue
+		}
+		q = c.tb.And(q, c.tb.Eq(in.T, c.tb.Const(v, in.T.s)))
+	}
+	return c.checkSat(q) != "unsat"
 }
 
 func (c *Ctx) recordViolation(fr *Frame, kind, msg string, model map[*Term]uint64) {
